@@ -85,11 +85,17 @@ def holdsVal (id : Nat) : Instr → Bool
   | .unrefExt j => j == id
   | _ => false
 
-/-- After `Close`: the instruction follows a decrement of node `id`'s counter to zero. -/
-def zeroRef : Instr → Option Nat
-  | .extz id _ => some id
+/-- After `Close`: the instruction is only there while node `id`'s counter is not positive.  A pending
+`callFinalizer` of `unRefExternal` always is (it follows a counter found at zero, after `Close` counters only
+fall); the zero branch of `unRefExternal` itself (`extz`) only in the guarded system `g` — without the guard the
+node may have been revived before `Close`, which is what the re-check of the repaired code is for. -/
+def zeroRef (g : Bool) : Instr → Option Nat
+  | .extz id _ => if g then some id else none
   | .fin id false => some id
   | _ => none
+
+/-- Finalisation is safe: the system is guarded, or `unRefExternal` re-checks the counter after `Close`. -/
+def Eff (g : Bool) (sh : Shared) : Bool := g || sh.recheck
 
 /-- Instructions that only `Close(true)` issues. -/
 def forcedOnly : Instr → Bool
@@ -133,9 +139,9 @@ structure InvP (g : Bool) (sh : Shared) (P : List Instr) (log : List Ev) : Prop 
   ex : ∀ id, 0 < refsP sh P id → ∃ n ∈ sh.nodes, n.id = id
   lr : sh.lru.recent.Nodup ∧ ∀ id, id ∈ sh.lru.recent ↔ ∃ n ∈ sh.nodes, n.id = id ∧ n.lru = .inList
   us : sh.lru.used = (sh.lru.recent.map (sizeOf sh.nodes)).sum ∧ sh.lru.used ≤ sh.lru.capacity
-  vl : (g = true ∨ sh.closed = false) → sh.forced = false → ∀ n ∈ sh.nodes,
+  vl : (Eff g sh = true ∨ sh.closed = false) → sh.forced = false → ∀ n ∈ sh.nodes,
         (n.id ∈ sh.handles ∨ n.lru = .inList ∨ ∃ i ∈ P, holdsVal n.id i = true) → n.value.isSome = true
-  zr : g = true → sh.closed = true → sh.forced = false → ∀ i ∈ P, ∀ id, zeroRef i = some id →
+  zr : Eff g sh = true → sh.closed = true → sh.forced = false → ∀ i ∈ P, ∀ id, zeroRef g i = some id →
         ∀ n ∈ sh.nodes, n.id = id → n.ref ≤ 0
 
 /-- Uniqueness of values and delFuncs over the log, the nodes and the pending instructions.  The delFunc part
